@@ -14,6 +14,13 @@ ASSUME = [
     "the fake Tor (SimTor) answers every command by command; GETINFO ip-to-country lookups issued on BUILT are answered 551; "
     "CLOSECIRCUIT / CLOSESTREAM are answered only at an explicit Ack step so that both orders of acknowledgement and event occur",
     "a stream's target / source are compared once Tor has reported them in a NEW / NEWRESOLVE / SUCCEEDED line (what the view records)",
+    "streams may be remapped repeatedly (cache hit on NEW, the exit's answer after SENTCONNECT): the latest address is the truth; a stream "
+    "reported FAILED may be reported CLOSED afterwards (for the view: an unknown id whose only event is terminal)",
+    "circuits may be extended after BUILT (cannibalisation, with a purpose change) and become BUILT again",
+    "build_circuit(): EXTENDCIRCUIT is answered at an explicit Ack step; the circuit's LAUNCHED announcement may come before or after "
+    "the answer (Tor flushes replies before events, both orders are explored); until the first event the circuit's status is a "
+    "placeholder and is not compared; no other event concerns the circuit while the answer is outstanding, and build_circuit is "
+    "called when no other command is in flight",
 ]
 
 
